@@ -347,7 +347,7 @@ func runSupervisor(name string, jobs int, tmo time.Duration, extra []string) {
 		line, err := readLine(in)
 		if len(line) > 0 {
 			cp := append([]byte(nil), line...)
-			if strings.Contains(string(cp[:min(len(cp), 200)]), `"setup":true`) {
+			if head := string(cp[:min(len(cp), 200)]); strings.Contains(head, `"setup":true`) || strings.Contains(head, `"setup": true`) {
 				setups = append(setups, cp)
 			} else {
 				launch()
